@@ -264,7 +264,8 @@ def shard_worker(shard_d, conn):
 def run_shards(shards, progress=None):
     """run all shards, at most NPROC at a time; returns {label: result}"""
     ctx = multiprocessing.get_context('fork')
-    pending = list(shards)
+    # longest budgets first: the tail of a run is then made of short shards
+    pending = sorted(shards, key=lambda shard: -shard.timeout)
     running = {}
     results = {}
     while pending or running:
